@@ -113,6 +113,20 @@ PROPS = {
                  "public key, truncated, future iat with a foreign key)"],
         assumptions=["the connection kind is what RemoteAddr().Network() reports"],
     ),
+    "C03": dict(
+        lean_props="Receptor.Props.C03",
+        engines=[dict(engine="stream", pkg=NETC, test="TestVerifStream", n_quick=10, n_thorough=120),
+                 dict(engine="unreach", pkg=NETC, test="TestVerifUnreach", n_quick=150, n_thorough=1500)],
+        corr_ops={"stream": ["transfer"], "unreach": ["deliver", "churn"]},
+        facts=["bridge_loop", "bridge_conns", "stream_first_byte", "stream_close", "stream_readfrom_copy", "unreach_dial_cancel"],
+        trusted=["quic-go: reliable, ordered delivery with retransmission over lossy, duplicating, reordering datagram links is the "
+                 "library's; it is exercised on every run (1..4 hops, loss up to 8 %, duplication, delays up to 30 ms, a cut of the "
+                 "active path with a dearer alternative) but not modelled — the theorems are about Receptor's own relay loop",
+                 "the links of the harness are in-memory backends (BackendSession) with seeded impairments",
+                 "the `connect` command and the TCP/Unix proxy services are represented by utils.BridgeConns between the mesh "
+                 "connection and a Unix socket pair (the call they make)"],
+        assumptions=["nodes stay mutually reachable; maxConnectionIdleTime 2.5 s, route updates every 250 ms; a transfer must finish in 75 s"],
+    ),
     "C04": dict(
         lean_props="Receptor.Props.C04",
         engines=[dict(engine="crash", pkg="pkg/workceptor", test="TestVerifCrash", n_quick=6, n_thorough=60)],
